@@ -1,0 +1,19 @@
+//go:build verif
+
+package signed
+
+import "crypto"
+
+// VerifComputeSignatureInput exposes computeSignatureInput to the verification harness
+// (/verif, engine "signed"). With an algorithm that is not in signatureAlgorithmDetails the
+// function returns the raw bytes it would otherwise hash.
+func VerifComputeSignatureInput(algo SignatureAlgorithm, hdrAndBody []byte,
+	associatedData ...[]byte,
+) ([]byte, crypto.Hash) {
+	return computeSignatureInput(algo, hdrAndBody, associatedData...)
+}
+
+// VerifCheckPubKeyAlgo exposes checkPubKeyAlgo to the verification harness.
+func VerifCheckPubKeyAlgo(algo SignatureAlgorithm, pubKey crypto.PublicKey) error {
+	return checkPubKeyAlgo(algo, pubKey)
+}
